@@ -1,5 +1,6 @@
 (* C05 — mutations through child views propagate to every enclosing view.  Property theorems only. *)
-Require Import RM.Base RM.Gindex RM.Tree RM.Types RM.Spec RM.ModelViews RM.ModelCodec RM.ModelMut RM.ModelStore RM.StoreProofs.
+Require Import RM.Base RM.Gindex RM.Tree RM.Types RM.Spec RM.ModelViews RM.ModelCodec RM.ModelMut RM.ModelStore RM.StoreProofs RM.CRepProofs RM.ReprProofs RM.MutProofs.
+Local Open Scope N_scope.
 
 (* writing a new backing through a child view obtained by [i] / .field stores it in the child and,
    by the child's hook, at position i of its parent (here: a parent that is itself a top-level view;
@@ -27,6 +28,48 @@ Theorem C05_frame : forall H src s c cell0,
   frame_except (target c) s s' /\ (forall e, res = Err e -> s' = s).
 Proof. exact cmd_on_unhooked. Qed.
 
+(* value level, any nesting depth: when a child's (possibly mutated) backing m represents x, writing it
+   into the parent at the child's position yields a parent backing that represents the parent's value
+   with that child replaced — whose root and encoding are therefore the fresh value's.  Because the
+   premise on m is again only `Repr`, the three theorems compose along any chain of enclosing views. *)
+Theorem C05_container_child : forall H src fs vs n i x m, wf_ty (TContainer fs) = true ->
+  Repr H (TContainer fs) (VCont vs) n -> (0 <= i < Z.of_nat (length fs))%Z -> Repr H (nth (Z.to_nat i) fs TBool) x m ->
+  wf (TContainer fs) (VCont (upd (Z.to_nat i) x vs)) = true ->
+  exists n', view_set H src (TContainer fs) n i m = Ok n' /\
+    root H n' = htr H (TContainer fs) (VCont (upd (Z.to_nat i) x vs)) /\
+    ser_impl H src (TContainer fs) n' = Ok (ser (TContainer fs) (VCont (upd (Z.to_nat i) x vs)), lenN (ser (TContainer fs) (VCont (upd (Z.to_nat i) x vs)))).
+Proof.
+  intros H src fs vs n i x m Hty Hr Hi Hx Hwf. destruct (container_set H src fs vs n i x m Hr Hi Hx) as (n' & Hs & Hr').
+  exists n'. split; [exact Hs|]. destruct (repr_fresh H src _ _ _ Hty Hwf Hr') as (_ & _ & _ & Hroot & Hser & _). auto.
+Qed.
+
+Theorem C05_vector_child : forall H src e k vs n i x m, wf_ty (TVector e k) = true -> basic_size e = None ->
+  Repr H (TVector e k) (VSeq vs) n -> lenN vs = k -> (0 <= i < Z.of_N k)%Z -> Repr H e x m ->
+  wf (TVector e k) (VSeq (upd (Z.to_nat i) x vs)) = true ->
+  exists n', view_set H src (TVector e k) n i m = Ok n' /\
+    root H n' = htr H (TVector e k) (VSeq (upd (Z.to_nat i) x vs)) /\
+    ser_impl H src (TVector e k) n' = Ok (ser (TVector e k) (VSeq (upd (Z.to_nat i) x vs)), lenN (ser (TVector e k) (VSeq (upd (Z.to_nat i) x vs)))).
+Proof.
+  intros H src e k vs n i x m Hty Eb Hr Hk Hi Hx Hwf. destruct (vector_set H src e k vs n i x m Eb Hr Hk Hi Hx) as (n' & Hs & Hr').
+  exists n'. split; [exact Hs|]. destruct (repr_fresh H src _ _ _ Hty Hwf Hr') as (_ & _ & _ & Hroot & Hser & _). auto.
+Qed.
+
+Theorem C05_list_child : forall H src e limit vs n i x m, wf_ty (TList e limit) = true -> basic_size e = None ->
+  Repr H (TList e limit) (VSeq vs) n -> lenN vs <= limit -> (0 <= i < Z.of_N (lenN vs))%Z -> Repr H e x m ->
+  wf (TList e limit) (VSeq (upd (Z.to_nat i) x vs)) = true ->
+  exists n', view_set H src (TList e limit) n i m = Ok n' /\
+    root H n' = htr H (TList e limit) (VSeq (upd (Z.to_nat i) x vs)) /\
+    ser_impl H src (TList e limit) n' = Ok (ser (TList e limit) (VSeq (upd (Z.to_nat i) x vs)), lenN (ser (TList e limit) (VSeq (upd (Z.to_nat i) x vs)))).
+Proof.
+  intros H src e limit vs n i x m Hty Eb Hr Hl Hi Hx Hwf.
+  assert (limit < 2 ^ 64) as Hlim by (cbn [wf_ty] in Hty; apply andb_true_iff in Hty as [_ Hb]; now apply N.ltb_lt in Hb).
+  destruct (list_set_v H src e limit Eb Hlim vs n i x m Hr Hl Hi Hx) as (n' & Hs & Hr').
+  exists n'. split; [exact Hs|]. destruct (repr_fresh H src _ _ _ Hty Hwf Hr') as (_ & _ & _ & Hroot & Hser & _). auto.
+Qed.
+
 Print Assumptions C05_propagate.
+Print Assumptions C05_container_child.
+Print Assumptions C05_vector_child.
+Print Assumptions C05_list_child.
 Print Assumptions C05_parent_reads_child.
 Print Assumptions C05_frame.
